@@ -30,7 +30,7 @@ func (s c18Staking) TotalBondedTokens(context.Context) (math.Int, error) { retur
 
 func c18MaxMsgs() int {
 	if ndTier() > 0 {
-		return 4
+		return 5
 	}
 	return 3
 }
